@@ -233,7 +233,17 @@ def r2_r3_step(ctx, E):
                         return out_
                     return [v_]
                 lv = leaves(nxt) if isinstance(nxt, tuple) else []
-                if not is_agg(nxt):
+                # a state record advanced in place (`state.pos += n`): the written fields, and every other field unchanged
+                upd_base, written = nxt, {}
+                while isinstance(upd_base, tuple) and upd_base and upd_base[0] == "upd" and upd_base[2][0] == "f":
+                    written.setdefault(upd_base[2][1], upd_base[3])
+                    upd_base = upd_base[1]
+                if written and not is_agg(nxt):
+                    lv = list(written.values())
+                    for x_ in (S, En):
+                        if isinstance(x_, tuple) and x_[0] == "field" and x_[1] == upd_base and x_[2] not in written:
+                            lv.append(x_)
+                if not is_agg(nxt) and not written:
                     bad.append("UNRECOGNISED next state %s" % short(nxt, 60))
                 else:
                     # the next state keeps the end and moves the position: among its components there is the unchanged end,
